@@ -99,6 +99,10 @@ def suffix_normal(suffix):
     drive = ''
     if len(s) >= 2 and s[1] == ':':
         drive, s = s[:2], s[2:]
+    else:
+        m = re.match(r'//[^/]+/[^/]+', s)        # a UNC drive: //server/mount
+        if m:
+            drive, s = m.group(0), s[m.end():]
     if s in ('', '/'):
         return True
     if '\\' in s or '//' in s or (s.endswith('/')):
@@ -290,6 +294,11 @@ def _closure(arg):
                 if n == 0 and tr:
                     continue
                 init.append(cls(pre + '/'.join(comps) + tr, root))
+    if root == Root.absolute:
+        # well-formed UNC bases (//server/mount[/...]): what odd //-strings normalise to is left
+        # open, but these are ordinary absolute paths with a drive and obey every law
+        for u in ('//srv/mnt/', '//srv/mnt/a', '\\\\srv\\mnt\\a\\', '//srv/mnt/a/b c'):
+            init.append(cls(u, root))
     seen = {}
     frontier = []
     for p in init:
@@ -320,6 +329,14 @@ def _closure(arg):
             for r2 in (Root.srcdir, Root.builddir):
                 if not p.destdir:
                     op('reroot(%s)' % r2.name, lambda r2=r2: p.reroot(r2))
+            # appending one ordinary component and taking the parent leads back
+            try:
+                back = p.append('zz').parent()
+                if (back.root, back.suffix) != (p.root, p.suffix):
+                    bad('append-parent-inverse', '%s:%s:%s' % (flavour, rootname, hist),
+                        '%r .append(zz).parent() = %r' % (state(p), state(back)))
+            except ValueError as e:
+                bad('append-parent-inverse', '%s:%s:%s' % (flavour, rootname, hist), '%r raises %s' % (state(p), e))
             for name, r in succ:
                 st = state(r)
                 w = '%s:%s:%s' % (flavour, rootname, hist + ' . ' + name)
